@@ -4,6 +4,7 @@ Refuting event: one expand(abbr, cfg) whose output tag stream (parsed by the ind
 scanner in outparse.py) differs from the tree computed by the depth-sequence reference
 model; secondary observation: the AST of emmet.markup_abbreviation()."""
 import random
+import re
 
 from .. import core, outparse, probes, ref_tree
 
@@ -24,7 +25,9 @@ REQUIRED_MONITORS = ['oracle:tag-stream', 'oracle:ast', 'oracle:implicit-name-un
 PARENTS = ['ul', 'ol', 'table', 'tbody', 'thead', 'tfoot', 'tr', 'select', 'optgroup', 'p', 'span', 'em', 'div', 'section', 'x-foo', 'li', 'td', 'a', 'b',
            'UL', 'Table', 'TR', 'P', 'Select', 'EM', 'OL', 'tBody', 'OptGroup', 'Span', 'DIV', 'h2', 'ns:ul', 'ul-x', 'x_ul',
            # aliases of one plain element (ref_tree.ALIAS): the same alias may stand twice on one ancestor path
-           'sect', 'sect', 'bq', 'art', 'det', 'fset', 'fst', 'optg', 'str', 'btn', 'hdr', 'mn']     # tag names are case-insensitive for the implicit-name table
+           'sect', 'sect', 'bq', 'art', 'det', 'fset', 'fst', 'optg', 'str', 'btn', 'hdr', 'mn',
+           # ... and aliases that lead to another alias before they reach the element (ref_tree.CHAINED)
+           'form:post', 'a:link', 'select:d', 'form:get', 'a:blank', 'bdo:l', 'tarea:c', 'acr']     # tag names are case-insensitive for the implicit-name table
 LEAVES = ['div', 'p', 'span', 'li', 'td', 'x-foo', 'ns:tag', 'h1', 'i', 'strong', 'article', 'main', 'q', 'code', 'option', 'tr']
 VOIDS = ['br', 'hr', 'x-v', 'wbr']
 STYLES = ['html', 'xhtml', 'xml']
@@ -241,7 +244,8 @@ def run_shard(desc, ctx):
             for k, v in RH.snippets.items():
                 for nm in k.split('|'):
                     raw[nm] = v
-            stale = {k: (v, raw.get(k)) for k, v in ref_tree.ALIAS.items() if raw.get(k) != v}
+            stale = {k: (v, raw.get(k)) for k, v in ref_tree.ALIAS.items() if raw.get(k) != v and not
+                     (k in ref_tree.CHAINED and re.fullmatch(re.escape(v) + r'\[[^\]]*\]', raw.get(k) or '') and v in raw)}
             if stale:
                 raise core.OracleError('ref_tree.ALIAS no longer matches emmet/snippets/html.py: %r' % (stale,))
         idx = 0
